@@ -31,7 +31,9 @@ import (
 	"k8s.io/klog/v2"
 
 	"google.golang.org/grpc"
+	"google.golang.org/grpc/codes"
 	"google.golang.org/grpc/reflection"
+	"google.golang.org/grpc/status"
 )
 
 const (
@@ -49,6 +51,15 @@ type server struct {
 // Katib store every log of metrics.
 // You can see accuracy curve or other metric logs on UI.
 func (s *server) ReportObservationLog(ctx context.Context, in *api_pb.ReportObservationLogRequest) (*api_pb.ReportObservationLogReply, error) {
+	// The DB layer dereferences the sub-messages; a request that lacks one is answered with an error.
+	if in.ObservationLog == nil {
+		return &api_pb.ReportObservationLogReply{}, status.Error(codes.InvalidArgument, "observation_log is required")
+	}
+	for i, mlog := range in.ObservationLog.MetricLogs {
+		if mlog == nil || mlog.Metric == nil {
+			return &api_pb.ReportObservationLogReply{}, status.Errorf(codes.InvalidArgument, "observation_log.metric_logs[%d]: metric is required", i)
+		}
+	}
 	err := dbIf.RegisterObservationLog(in.TrialName, in.ObservationLog)
 	return &api_pb.ReportObservationLogReply{}, err
 }
